@@ -197,7 +197,7 @@ pub fn aligned_ops(rng: &mut Rng, residue: usize) -> Option<Vec<Op>> {
         let s0 = u32::from_le_bytes(comp[pos - len + 8..pos - len + 12].try_into().ok()?) as usize;
         if s0 % c == residue % c { return Some(ops); }
         let d = (s0 + c - residue % c) % c;
-        z = if z + d < b - 64 { z + d } else if z >= c - d { z - (c - d) } else { return None };
+        z = if z + d + b / 4 < b { z + d } else if z + d >= c { z + d - c } else { return None };
     }
     None
 }
